@@ -203,6 +203,29 @@ def run_driver(ops_path, out_path, timeout=3600, exe=None):
     return p.returncode, p.stderr
 
 
+def context_for(ops_path, index, impl_out, mode=("run",)):
+    """a failure that depends on what earlier calls left behind: find a short run of the ops preceding op `index` after which the
+    implementation again answers `impl_out` to it (0 preceding ops when it fails on its own). returns the list of ops"""
+    with open(ops_path) as f:
+        lines = f.read().splitlines()
+    if index >= len(lines):
+        return []
+    tmp = os.path.join(BUILD, "ctx_ops.txt")
+    for k in (0, 4, 32, 256, 2048, 16384, index):
+        k = min(k, index)
+        chunk = lines[index - k:index + 1]
+        if sum(len(x) for x in chunk) > 8_000_000:
+            break
+        open(tmp, "w").write("\n".join(chunk) + "\n")
+        run_go(tmp, tmp + ".out", mode=mode, timeout=600)
+        out = open(tmp + ".out").read().splitlines()
+        if len(out) == len(chunk) and out[-1][:2000] == impl_out:
+            return chunk[:-1]
+        if k == index:
+            break
+    return lines[max(0, index - 4):index]
+
+
 def canon(line):
     """canonical outcome for comparison: error *class* is informational only"""
     t = line.split(" ", 2)
@@ -217,18 +240,21 @@ def compare(ops_path, go_path, lean_path, limit=20):
     diffs = []
     counts = {}
     distinct = set()
+    recent = []
     with open(ops_path) as fo, open(go_path) as fg, open(lean_path) as fl:
         for op, g, l in zip(fo, fg, fl):
             n += 1
             g = g.rstrip("\n")
             l = l.rstrip("\n")
+            ctx = list(recent)
+            recent = (recent + [op.rstrip("\n")[:4000]])[-4:]
             k = g.split(" ", 1)[0]
             counts[k] = counts.get(k, 0) + 1
             if k == "ok":
                 distinct.add(hashlib.blake2b(op.encode(), digest_size=8).digest())
             if canon(g) != canon(l):
                 if len(diffs) < limit:
-                    diffs.append({"op": op.rstrip("\n")[:4000], "impl": g[:2000], "model": l[:2000]})
+                    diffs.append({"op": op.rstrip("\n")[:4000], "impl": g[:2000], "model": l[:2000], "context": ctx, "index": n - 1})
                 else:
                     diffs.append(None)
     # length mismatch = crashed side
@@ -241,8 +267,10 @@ def compare(ops_path, go_path, lean_path, limit=20):
 def oracle_fails(ops_path, out_path, limit=50):
     fails = []
     counts = {"pass": 0, "skip": 0, "FAIL": 0, "other": 0}
+    idx = -1
     with open(ops_path) as fo, open(out_path) as fr:
         for op, r in zip(fo, fr):
+            idx += 1
             k = r.split(" ", 1)[0].strip()
             if k in counts:
                 counts[k] += 1
@@ -250,7 +278,7 @@ def oracle_fails(ops_path, out_path, limit=50):
                 counts["other"] += 1
             if k not in ("pass", "skip"):
                 if len(fails) < limit:
-                    fails.append({"op": op.rstrip("\n")[:4000], "result": r.rstrip("\n")[:2000]})
+                    fails.append({"op": op.rstrip("\n")[:4000], "result": r.rstrip("\n")[:2000], "index": idx})
     return fails, counts
 
 
